@@ -35,7 +35,7 @@ class NormalizedString(str, AnyAtomicType):
 
 class XsdToken(NormalizedString):
     name = 'token'
-    pattern = LazyPattern(r'^[\S\xa0]*(?: [\S\xa0]+)*$')
+    pattern = LazyPattern(r'^[^ \t\n\r]*(?: [^ \t\n\r]+)*$')
 
     def __new__(cls, value: Any) -> 'XsdToken':
         if not isinstance(value, str):
